@@ -72,20 +72,21 @@ def Cache.empty : Cache := ⟨[], []⟩
 
 /-! ## the ordered index (sorted_btree.go) -/
 
-/-- last entry (= greatest start key in a sorted list) whose start is `<= key` (`< key` when `strict`) -/
-def lastLE (key : Bytes) (strict : Bool) : List Entry → Option Entry → Option Entry
+/-- last entry (= greatest start key in a sorted list) satisfying `p` -/
+def lastLE (p : Entry → Bool) : List Entry → Option Entry → Option Entry
   | [], acc => acc
-  | e :: es, acc =>
-    if (if strict then Bytes.lt e.r.start key else Bytes.le e.r.start key) then lastLE key strict es (some e)
-    else lastLE key strict es acc
+  | e :: es, acc => if p e then lastLE p es (some e) else lastLE p es acc
 
-/-- `SortedRegions.SearchByKey`: DescendLessOrEqual(key); in end-key mode an item starting exactly at the key is
-    skipped; the first item visited decides (contained → it, else nil) -/
+/-- `Contains` / `ContainsByEnd` according to the lookup mode -/
+def inRegion (isEnd : Bool) (r : Region) (key : Bytes) : Bool :=
+  if isEnd then r.containsByEnd key else r.contains key
+
+/-- `SortedRegions.SearchByKey`: DescendLessOrEqual(key) = greatest start <= key; in end-key mode an item starting
+    exactly at the key is skipped (greatest start < key); the first item visited decides (contained → it, else nil) -/
 def searchByKey (s : List Entry) (key : Bytes) (isEnd : Bool) : Option Entry :=
-  match lastLE key isEnd s none with
+  match lastLE (fun e => if isEnd then Bytes.lt e.r.start key else Bytes.le e.r.start key) s none with
   | none => none
-  | some e =>
-    if (if isEnd then e.r.containsByEnd key else e.r.contains key) then some e else none
+  | some e => if inRegion isEnd e.r key then some e else none
 
 /-- the items `removeIntersecting` visits: start >= r.start and (r unbounded or start < r.end) -/
 def inRangeStart (r : Region) (e : Entry) : Bool :=
@@ -117,19 +118,21 @@ def removeVersion (l : List (Nat × VerID)) (v : VerID) : List (Nat × VerID) :=
   | some x => if x = v then latestErase l v.id else l
   | none => l
 
+/-- the epoch check against `latestVersions[newVer.id]` -/
+def staleByLatest (l : List (Nat × VerID)) (r : Region) : Bool :=
+  match latestGet l r.id with
+  | some old => decide (old.ver > r.ver) || decide (old.confVer > r.confVer)
+  | none => false
+
 /-- `regionIndexMu.insertRegionToCache`; the Bool is the Go return value (false = stale, nothing changed) -/
 def insertRegionToCache (c : Cache) (n : Entry) : Cache × Bool :=
-  let stale :=
-    match latestGet c.latest n.r.id with
-    | some old => decide (old.ver > n.r.ver) || decide (old.confVer > n.r.confVer)
-    | none => false
-  if stale then (c, false)
+  if staleByLatest c.latest n.r then (c, false)
   else
     match removeIntersecting c.sorted n.r with
     | none => (c, false)
     | some (kept, deleted) =>
-      let latest1 := deleted.foldl (fun l d => removeVersion l d.r.verID) c.latest
-      (⟨insertSorted n kept, (n.r.id, n.r.verID) :: latestErase latest1 n.r.id⟩, true)
+      (⟨insertSorted n kept,
+        (n.r.id, n.r.verID) :: latestErase (deleted.foldl (fun l d => removeVersion l d.r.verID) c.latest) n.r.id⟩, true)
 
 /-- `mu.regions[verID]` -/
 def Cache.byVerID (c : Cache) (v : VerID) : Option Entry := c.sorted.find? (fun e => e.r.verID == v)
